@@ -13,6 +13,18 @@ LP/CertSound.vos LP/CertSound.vok LP/CertSound.required_vos: LP/CertSound.v LP/C
 LP/User.vo LP/User.glob LP/User.v.beautified LP/User.required_vo: LP/User.v LP/ILP.vo
 LP/User.vio: LP/User.v LP/ILP.vio
 LP/User.vos LP/User.vok LP/User.required_vos: LP/User.v LP/ILP.vos
+LP/UserSound.vo LP/UserSound.glob LP/UserSound.v.beautified LP/UserSound.required_vo: LP/UserSound.v LP/User.vo LP/OptTest.vo
+LP/UserSound.vio: LP/UserSound.v LP/User.vio LP/OptTest.vio
+LP/UserSound.vos LP/UserSound.vok LP/UserSound.required_vos: LP/UserSound.v LP/User.vos LP/OptTest.vos
 LP/OptTest.vo LP/OptTest.glob LP/OptTest.v.beautified LP/OptTest.required_vo: LP/OptTest.v LP/Cert.vo
 LP/OptTest.vio: LP/OptTest.v LP/Cert.vio
 LP/OptTest.vos LP/OptTest.vok LP/OptTest.required_vos: LP/OptTest.v LP/Cert.vos
+LP/OptTestSound.vo LP/OptTestSound.glob LP/OptTestSound.v.beautified LP/OptTestSound.required_vo: LP/OptTestSound.v LP/OptTest.vo LP/CertSound.vo
+LP/OptTestSound.vio: LP/OptTestSound.v LP/OptTest.vio LP/CertSound.vio
+LP/OptTestSound.vos LP/OptTestSound.vok LP/OptTestSound.required_vos: LP/OptTestSound.v LP/OptTest.vos LP/CertSound.vos
+LP/Driver.vo LP/Driver.glob LP/Driver.v.beautified LP/Driver.required_vo: LP/Driver.v LP/OptTest.vo
+LP/Driver.vio: LP/Driver.v LP/OptTest.vio
+LP/Driver.vos LP/Driver.vok LP/Driver.required_vos: LP/Driver.v LP/OptTest.vos
+LP/DriverSound.vo LP/DriverSound.glob LP/DriverSound.v.beautified LP/DriverSound.required_vo: LP/DriverSound.v LP/Driver.vo LP/OptTestSound.vo
+LP/DriverSound.vio: LP/DriverSound.v LP/Driver.vio LP/OptTestSound.vio
+LP/DriverSound.vos LP/DriverSound.vok LP/DriverSound.required_vos: LP/DriverSound.v LP/Driver.vos LP/OptTestSound.vos
